@@ -367,15 +367,17 @@ type handler interface {
 	Name() string
 }
 
-func newHandler(role string) handler {
+// newHandler builds the handler over a fresh duty store (the one store cli/operator also hands to
+// message validation) and returns both.
+func newHandler(role string) (handler, *dutystore.Store) {
 	st := dutystore.New()
 	switch role {
 	case "attester":
-		return duties.NewAttesterHandler(st.Attester)
+		return duties.NewAttesterHandler(st.Attester), st
 	case "proposer":
-		return duties.NewProposerHandler(st.Proposer)
+		return duties.NewProposerHandler(st.Proposer), st
 	case "sync":
-		return duties.NewSyncCommitteeHandler(st.SyncCommittee)
+		return duties.NewSyncCommitteeHandler(st.SyncCommittee), st
 	}
 	panic("bad role " + role)
 }
